@@ -55,6 +55,9 @@ type Table struct {
 	Once     *ssa.Global   // the package-level sync.Once
 	OnceBody *ssa.Function // the function literal that builds the map (the only writer of the variable)
 	Accessor *ssa.Function // runs once.Do(OnceBody) and returns the variable's value; every other use goes through it
+	// read-only views: functions that put the map into a field of a fresh record (a typed wrapper whose methods look keys
+	// up) and return that record; what callers do with the record is classified by the methods they call on it
+	Views map[*ssa.Function]int // accessor -> index of the field that holds the map
 }
 
 type ChecksumSvc struct {
@@ -372,6 +375,45 @@ func (u *Universe) discoverTables() error {
 							if t.Accessor == callee {
 								u.classifyMapValue(t, fn, c)
 							}
+						}
+					}
+				}
+			}
+		}
+	}
+	// callers of view accessors: the methods they call on the view decide what they are
+	for _, t := range u.Tables {
+		if len(t.Views) == 0 {
+			continue
+		}
+		for fn := range p.AllFuncs {
+			if !p.InModule(fn) || fn.Blocks == nil || p.IsTestFile(fn.Pos()) {
+				continue
+			}
+			for _, b := range fn.Blocks {
+				for _, in := range b.Instrs {
+					c, ok := in.(*ssa.Call)
+					if !ok {
+						continue
+					}
+					fidx, isView := t.Views[c.Call.StaticCallee()]
+					if !isView {
+						continue
+					}
+					for _, r := range *c.Referrers() {
+						if _, dbg := r.(*ssa.DebugRef); dbg {
+							continue
+						}
+						use := ""
+						if mc, isCall := r.(*ssa.Call); isCall && !mc.Call.IsInvoke() {
+							use = recordMapUse(mc, c, fidx, 0)
+						}
+						switch use {
+						case "lookup":
+							addFn(&t.Lookups, fn)
+						case "query":
+						default:
+							t.OtherRefs = append(t.OtherRefs, r)
 						}
 					}
 				}
@@ -827,6 +869,17 @@ func (u *Universe) classifyMapValue(t *Table, fn *ssa.Function, ld ssa.Value) {
 				}
 			case *ssa.DebugRef:
 				continue
+			case *ssa.Store:
+				// the map put into a field of a record made here and handed back whole: a view of the table
+				if fa, isFA := r.Addr.(*ssa.FieldAddr); isFA && r.Val == ld {
+					if al, isAl := fa.X.(*ssa.Alloc); isAl && viewReturned(al, fn) {
+						if t.Views == nil {
+							t.Views = map[*ssa.Function]int{}
+						}
+						t.Views[fn] = fa.Field
+						continue
+					}
+				}
 			case *ssa.Call:
 				// the table handed to a module function (e.g. a method of a named map type) that only looks up in it
 				// or only updates it: this function is then a lookup / registrar through that helper
@@ -839,6 +892,9 @@ func (u *Universe) classifyMapValue(t *Table, fn *ssa.Function, ld ssa.Value) {
 				}
 			}
 			allOK = false
+			if os.Getenv("FPDEBUG") == "tables" {
+				fmt.Fprintf(os.Stderr, "OTHERREF %s in %s: %T %v\n", t.Name, fn, r, r)
+			}
 			t.OtherRefs = append(t.OtherRefs, r)
 		}
 		_ = allOK
@@ -1609,4 +1665,147 @@ func (u *Universe) ServiceByName(name string) *ChecksumSvc {
 		}
 	}
 	return nil
+}
+
+
+// viewReturned: the record al made in fn is used for nothing but filling its fields and being returned (as a whole value
+// loaded from it, or by its address).
+func viewReturned(al *ssa.Alloc, fn *ssa.Function) bool {
+	returned := false
+	for _, r := range *al.Referrers() {
+		switch r := r.(type) {
+		case *ssa.DebugRef:
+		case *ssa.FieldAddr:
+			for _, rr := range *r.Referrers() {
+				if st, ok := rr.(*ssa.Store); !ok || st.Addr != ssa.Value(r) {
+					if _, dbg := rr.(*ssa.DebugRef); !dbg {
+						return false
+					}
+				}
+			}
+		case *ssa.UnOp:
+			for _, rr := range *r.Referrers() {
+				switch rr.(type) {
+				case *ssa.Return:
+					returned = true
+				case *ssa.DebugRef:
+				default:
+					return false
+				}
+			}
+		case *ssa.Return:
+			returned = true
+		default:
+			return false
+		}
+	}
+	return returned
+}
+
+// recordMapUse: call hands the record value rec (a view of a table: the map is its field fidx) to a module function as
+// one of its arguments; what does that function do with the map? "lookup" (reads entries), "query" (asks only whether a
+// key is there, how many, which keys), "" (anything else: updates it, stores it, hands the record on in a way not followed).
+func recordMapUse(call *ssa.Call, rec ssa.Value, fidx int, depth int) string {
+	callee := call.Call.StaticCallee()
+	if callee == nil || callee.Blocks == nil || depth > 3 {
+		return ""
+	}
+	idx := -1
+	for i, a := range call.Call.Args {
+		if a == rec {
+			if idx >= 0 {
+				return ""
+			}
+			idx = i
+		}
+	}
+	if idx < 0 || idx >= len(callee.Params) {
+		return ""
+	}
+	res := "query"
+	var mapVals []ssa.Value
+	var recUses func(v ssa.Value, isAddr bool) bool
+	recUses = func(v ssa.Value, isAddr bool) bool {
+		for _, r := range *v.Referrers() {
+			switch r := r.(type) {
+			case *ssa.DebugRef:
+			case *ssa.Field:
+				if isAddr || r.X != v {
+					return false
+				}
+				if r.Field == fidx {
+					mapVals = append(mapVals, r)
+				}
+			case *ssa.FieldAddr:
+				if !isAddr || r.X != v {
+					return false
+				}
+				for _, rr := range *r.Referrers() {
+					switch rr := rr.(type) {
+					case *ssa.DebugRef:
+					case *ssa.UnOp:
+						if r.Field == fidx {
+							mapVals = append(mapVals, rr)
+						}
+					default:
+						return false // the field written or its address handed on
+					}
+				}
+			case *ssa.Store:
+				// the parameter spilled into a local of the callee (its address is taken by a method call or a field access)
+				if isAddr && r.Addr == v {
+					if _, fromParam := r.Val.(*ssa.Parameter); fromParam {
+						continue // the spill itself, seen from the local
+					}
+					return false
+				}
+				if isAddr || r.Val != v {
+					return false
+				}
+				al, ok := r.Addr.(*ssa.Alloc)
+				if !ok || !recUses(al, true) {
+					return false
+				}
+			case *ssa.UnOp:
+				if !isAddr || !recUses(r, false) {
+					return false
+				}
+			case *ssa.ChangeType:
+				// an instantiation wrapper hands its receiver on under the generic body's type
+				if isAddr || !recUses(r, false) {
+					return false
+				}
+			case *ssa.Call:
+				sub := recordMapUse(r, v, fidx, depth+1)
+				if sub == "" {
+					return false
+				}
+				if sub == "lookup" {
+					res = "lookup"
+				}
+			default:
+				return false
+			}
+		}
+		return true
+	}
+	if !recUses(callee.Params[idx], false) {
+		return ""
+	}
+	for _, m := range mapVals {
+		for _, r := range *m.Referrers() {
+			if _, dbg := r.(*ssa.DebugRef); dbg {
+				continue
+			}
+			if mapQueryUse(r, m, 0) {
+				continue
+			}
+			if lk, ok := r.(*ssa.Lookup); ok && lk.X == m {
+				res = "lookup"
+				continue
+			}
+			return ""
+		}
+	}
+	return res
 }
